@@ -9,6 +9,7 @@ import (
 
 	pb "github.com/alpacahq/marketstore/v4/proto"
 	"github.com/alpacahq/marketstore/v4/utils/log"
+	"github.com/alpacahq/marketstore/v4/verifhook"
 )
 
 const (
@@ -50,6 +51,7 @@ func (rs *GRPCReplicationServer) GetWALStream(_ *pb.GetWALStreamRequest, stream 
 
 	streamChannel := make(chan []byte, defaultReplicationStreamChannelSize)
 	rs.StreamChannels[clientAddr] = streamChannel
+	verifhook.At("Repl.inserted", clientAddr)
 
 	// infinite loop
 	for {
@@ -69,8 +71,11 @@ func (rs *GRPCReplicationServer) GetWALStream(_ *pb.GetWALStreamRequest, stream 
 	}
 
 	// when an error occurred / client connection is closed, close the channel
+	verifhook.At("Repl.beforeDelete", clientAddr)
 	delete(rs.StreamChannels, clientAddr)
+	verifhook.At("Repl.deleted", clientAddr)
 	close(streamChannel)
+	verifhook.At("Repl.closed", clientAddr)
 	log.Info(fmt.Sprintf("[master] closed replication connection: %v", clientAddr))
 
 	return nil
@@ -80,6 +85,8 @@ func (rs *GRPCReplicationServer) SendReplicationMessage(transactionGroup []byte)
 	// send a replication message to each replica
 	for ip, channel := range rs.StreamChannels {
 		log.Debug("sending a replication message to %s", ip)
+		verifhook.At("Repl.fanout.beforeSend", ip)
 		channel <- transactionGroup
+		verifhook.At("Repl.fanout.sent", ip)
 	}
 }
